@@ -185,8 +185,12 @@ where
             match wait_mode {
                 WaitMode::Block => limiter.until_key_ready(peer_id).await,
                 WaitMode::ReturnError => {
+                    // Read the clock before consulting the limiter: measured from an instant that
+                    // is not later than the limiter's decision, the advertised wait is always
+                    // positive (it used to be 0 when the wait elapsed before the clock was read).
+                    let now = clock.now();
                     if let Err(e) = limiter.check_key(peer_id) {
-                        let wait_time = e.wait_time_from(clock.now());
+                        let wait_time = e.wait_time_from(now);
                         return Err(anemo::rpc::Status::new(
                             anemo::types::response::StatusCode::TooManyRequests,
                         )
